@@ -71,7 +71,7 @@ package chain
 //@   ensures tstate.wf(mu) && tstate.RI(mu)
 
 // Transactions are atomic and always pay their fee (C03)
-//@ func (*Transaction).Execute props C03 C07
+//@ func (*Transaction).Execute props C03 C07 C06
 //@   noframe
 //@   requires tstate.wf(ts) && tstate.RI(ts) && internalfees.wellFormed(feeManager)
 //@   modifies ts.pendingChangedKeys[], ts.writes[], ts.allocates[], ts.ops
